@@ -35,6 +35,7 @@ CFG_FLAGS = {
 STR_REPLACE = "_ZNSt7__cxx1112basic_stringIcSt11char_traitsIcESaIcEE10_M_replaceEmmPKcm"
 STR_MUTATE = "_ZNSt7__cxx1112basic_stringIcSt11char_traitsIcESaIcEE9_M_mutateEmmPKcm"
 STR_STUBS = [STR_REPLACE, STR_MUTATE]
+TO_ASCII = "_ZN3ada7unicode8to_asciiERSt8optionalINSt7__cxx1112basic_stringIcSt11char_traitsIcESaIcEEEESt17basic_string_viewIcS5_Em"
 CBMC_CHECKS = ["--bounds-check", "--pointer-check", "--div-by-zero-check", "--undefined-shift-check",
                "--signed-overflow-check"]
 
@@ -60,7 +61,7 @@ class Obl:
     def __init__(self, name, harness, units, defs=None, unwind=8, unwindset=(), tiers=("quick", "thorough"),
                  timeout=None, mem_gb=6, backend=None, witness=True, extra_flags=(), props=(),
                  expect_known=None, note="", checks=True, replay=True, maxcpy=32, group=None, weight=1,
-                 no_heap=True, helper_unwind=34, str_max=16):
+                 no_heap=True, helper_unwind=34, str_max=16, allow_vacuous=False):
         self.name, self.harness, self.units = name, harness, list(units)
         self.defs = dict(defs or {})
         self.unwind, self.unwindset, self.tiers = unwind, tuple(unwindset), tiers
@@ -69,6 +70,7 @@ class Obl:
         self.expect_known, self.note, self.checks, self.replay = expect_known, note, checks, replay
         self.maxcpy = maxcpy
         self.no_heap, self.helper_unwind, self.str_max = no_heap, helper_unwind, str_max
+        self.allow_vacuous = allow_vacuous
         self.group = group or name
         self.weight = weight
 
@@ -279,6 +281,8 @@ class Engine:
         lines.append(f'#include "{VERIF}/models/models.c"')
         if any(STR_REPLACE in u.stubs for u in obl.units):
             lines.append(f"#define VK_STR_MAX {obl.str_max}")
+            if any(TO_ASCII in u.stubs for u in obl.units):
+                lines.append("#define VK_STUB_TO_ASCII 1")
             lines.append(f'#include "{VERIF}/models/string_model.c"')
         lines.append(f'#include "{VERIF}/harness/{obl.harness}"')
         if mode == "replay":
@@ -450,6 +454,9 @@ class Engine:
                     res.cex_desc = f.get("description")
                     break
             res.detail = "; ".join(sorted(set(f.get("description", "") for f in fails)))[:600]
+            return
+        if obl.witness and not res.witness_ok and obl.allow_vacuous:
+            res.status, res.detail = "infeasible-case", "no state of this shape exists at this length (case of a case split; nothing to prove)"
             return
         if obl.witness and not res.witness_ok:
             res.status, res.detail = "vacuous", "reachability witness not reachable (assumptions unsatisfiable or harness does not reach the assertion)"
